@@ -29,6 +29,8 @@ type Oblig struct {
 	C      *Ctx
 	Inputs []ModelVar // symbols whose model values describe the inputs
 	Note   string
+	Relax     string // extra hypothesis tried when the strict obligation is not proved
+	RelaxName string // name of the assumption class the relaxed proof depends on
 }
 
 // ModelVar names an input of the function for counterexample reporting.
@@ -92,6 +94,9 @@ type exec struct {
 	frame    *frameInfo
 	fnName   string
 	fnPos    token.Pos
+	suppress bool              // inside stored closures: implicit-panic obligations are not generated
+	sliceElem map[string]string // slice-valued heap array → element heap array
+	mapField  map[string]*types.Map
 }
 
 func (x *exec) note(f string, a ...interface{}) { x.notes[fmt.Sprintf(f, a...)] = true }
@@ -214,15 +219,15 @@ func (x *exec) claims(k string) bool {
 	if x.con.Claims[k] {
 		return true
 	}
+	if x.suppress && k != "inverse" {
+		return false
+	}
 	if k != "nopanic" && k != "nil" && k != "overflow" && x.con.Claims["nopanic"] {
 		// nopanic implies the individual panic kinds (not nil derefs / overflow)
 		switch k {
 		case "bounds", "slice", "div", "typeassert", "make", "nilmap", "panic", "shift", "conv":
 			return true
 		}
-	}
-	if k == "overflow" && x.con.Mode == ModeInt {
-		return true
 	}
 	return false
 }
@@ -489,7 +494,7 @@ func (x *exec) enterLoop(fr *frame, li *loopInfo, sin *State) *State {
 	// havoc
 	s := sin.clone()
 	if havocAll {
-		x.h.havocAll(s)
+		x.havocAll(s)
 	} else {
 		var names []string
 		for n := range modHeap {
@@ -498,6 +503,13 @@ func (x *exec) enterLoop(fr *frame, li *loopInfo, sin *State) *State {
 		sort.Strings(names)
 		for _, n := range names {
 			s.heap[n] = x.c.FreshConst(n, x.h.sorts[n])
+			if n == "alive" {
+				// objects never die: everything alive at loop entry is alive in every iteration
+				q := x.c.Fresh("r")
+				x.c.Axiom([]string{s.heap[n]}, fmt.Sprintf("(forall ((%s Int)) (! (=> (select %s %s) (select %s %s)) :pattern ((select %s %s))))",
+					q, x.h.get(sin, "alive", "(Array Int Bool)"), q, s.heap[n], q, s.heap[n], q))
+				x.reassertAlive(s)
+			}
 			if x.frame != nil && !x.frame.star && fr.top && !frameExempt(n) && s.epoch == x.frame.entry.epoch {
 				x.assume(s, x.frameQuant(x.frame, n, x.h.get(x.frame.entry, n, x.h.sorts[n]), s.heap[n]))
 				li.frameArrs = append(li.frameArrs, n)
@@ -513,6 +525,10 @@ func (x *exec) enterLoop(fr *frame, li *loopInfo, sin *State) *State {
 	}
 	sort.Strings(ghs)
 	for _, k := range ghs {
+		if ss := sin.ghost[k].SetSort; ss != "" {
+			s.ghost[k] = &Val{T: x.c.FreshConst("h.visited", ss), Typ: sin.ghost[k].Typ, SetSort: ss}
+			continue
+		}
 		s.ghost[k] = x.freshVal("h.ghost", sin.ghost[k].Typ, s)
 	}
 	var cells []*ssa.Alloc
@@ -534,6 +550,21 @@ func (x *exec) enterLoop(fr *frame, li *loopInfo, sin *State) *State {
 			break
 		}
 		fr.vals[phi] = x.freshVal("h."+phi.Comment, phi.Type(), s)
+	}
+	// the hidden index of a range loop starts at -1 and only counts up (structural fact of the lowering)
+	for _, in := range b.Instrs {
+		if u, ok := in.(*ssa.UnOp); ok {
+			if a, ok := u.X.(*ssa.Alloc); ok && a.Comment == "rangeindex" {
+				if v, ok := s.cells[a]; ok && v.T != "" {
+					x.assume(s, And(x.c.ICmp("<=", x.c.ILit(-1), v.T), x.c.ICmp("<=", v.T, x.c.ILit(1<<48))))
+				}
+			}
+		}
+		if phi, ok := in.(*ssa.Phi); ok && phi.Comment == "rangeindex" {
+			if v, ok := fr.vals[phi]; ok && v.T != "" {
+				x.assume(s, And(x.c.ICmp("<=", x.c.ILit(-1), v.T), x.c.ICmp("<=", v.T, x.c.ILit(1<<48))))
+			}
+		}
 	}
 	for _, inv := range invs {
 		x.assume(s, x.evalBool(inv.E, x.loopEnv(fr, li, s)))
@@ -820,7 +851,28 @@ func (x *exec) newRef(s *State, stem string) string {
 	al := x.h.get(s, "alive", "(Array Int Bool)")
 	x.assume(s, And(Not(Eq(r, "0")), Not(Sel(al, r))))
 	x.h.set(s, "alive", "(Array Int Bool)", Sto(al, r, "true"))
+	s.aliveRefs = append(s.aliveRefs[:len(s.aliveRefs):len(s.aliveRefs)], r)
 	return r
+}
+
+// havocAll forgets the heap but not which known objects are alive (objects never die).
+func (x *exec) havocAll(s *State) {
+	x.h.havocAll(s)
+	x.reassertAlive(s)
+}
+
+// reassertAlive re-states, for the current `alive` array, that every object this function
+// allocated or received is alive (or nil).
+func (x *exec) reassertAlive(s *State) {
+	if len(s.aliveRefs) == 0 {
+		return
+	}
+	al := x.h.get(s, "alive", "(Array Int Bool)")
+	var fs []string
+	for _, r := range s.aliveRefs {
+		fs = append(fs, Or(Eq(r, "0"), Sel(al, r)))
+	}
+	x.assume(s, x.c.Define(x.c.Fresh("alive.known"), "Bool", And(fs...)))
 }
 
 func (x *exec) alloc(fr *frame, a *ssa.Alloc, s *State) {
